@@ -577,7 +577,7 @@ def descriptorFromResponse (resp : Resp) (knownDigest : Bytes) (requireSize requ
     let dg := hget resp.hdr hDigest
     if dg ≠ [] ∧ !isDigest dg then .error .badDigest                    -- client.go:169-172
     else
-      let dg := if dg ≠ [] then dg else knownDigest                     -- client.go:173-175
+      let dg := if knownDigest ≠ [] then knownDigest else dg              -- client.go: the digest asked for wins (fix F31)
       if requireDigest ∧ dg = [] then .error .noDigest                  -- client.go:176-178
       else .ok { mediaType := ct, digest := dg, size := size }
 
